@@ -583,6 +583,11 @@ def _quick_for(rx, props):
 _thorough(r"^C01/legal/is-legal-prefilter/(Simple|CastlingKingside|CastlingQueenside)/")
 _thorough(r"^C01/legal/is-legal-prefilter/(PawnDouble/[wb]|PromoteQueen/w)$")
 _thorough(r"^C01/legal/is-legal/(CastlingKingside/b|CastlingQueenside/w)$")   # quick keeps one colour per castling side
+# measured with `vp check` on a fresh copy: that machine is about 1.4 times slower than this sandbox
+# and C01 / C02 ran into the deadline; single queries of more than ~8 minutes here do not fit
+_thorough(r"^C01/legal/is-legal-prefilter/king-moves/b$")
+_thorough(r"^C01/legal/is-legal/Simple/b$")
+_thorough(r"^C02/make-move/Simple/[wb]$")      # the Make wrapper is kind-independent; plain moves: C03/make/Simple + C01/legal/is-legal/Simple
 # queen = do_gen_brq with both ray flags; bishop and rook run the same function with one flag each
 _thorough(r"^(C01/gen|C07/gen-exit)/queen/.*/le3$")
 _thorough(r"^C09/into-move/built/(pawn-move/b|pawn-capture/w)$")
